@@ -151,6 +151,24 @@ pub fn cases(mix: &str, n: usize, seed: u64) -> Vec<Case> {
         }
     }
     if want("nesting") {
+        // long lines: a rejected template whose error sits at a column around and beyond 2^16 (line lengths are
+        // not bounded by the property: minified markup, data URIs), in text, inside a comment, in the declaration
+        for len in [250usize, 65_530, 65_535, 65_536, 65_540, 70_000, 131_073] {
+            for tail in ["@if x {", "@(", "@for a b {}", "@* open", "@:c({"] {
+                let mut s = b"@()\n".to_vec();
+                s.extend(std::iter::repeat(b'a').take(len));
+                s.extend(tail.as_bytes());
+                out.push(Case { kind: "longline", src: s, intended: None, pair_of: None, decl: None });
+            }
+            let mut s = b"@(a: &str, ".to_vec();
+            s.extend(std::iter::repeat(b' ').take(len));
+            s.extend(b"b: %)\nx\n");
+            out.push(Case { kind: "longline", src: s, intended: None, pair_of: None, decl: None });
+            let mut s = b"@()\n".to_vec();
+            s.extend("\u{e9}".repeat(len / 2).as_bytes());
+            s.extend(b"@if {");
+            out.push(Case { kind: "longline", src: s, intended: None, pair_of: None, decl: None });
+        }
         for depth in [1usize, 2, 5, 10, 25, 50, 75, 100] {
             for (open, close) in [("(", ")"), ("[", "]"), ("{", "}")] {
                 for closed in [true, false] {
